@@ -116,6 +116,21 @@ def kf_hash_chromosome_name(inputs):
     return len(rep) == 2 and re.match(r"models for chromosome 'c1': [1-9]\d*$", rep[0]) is not None and rep[1] == "models for chromosome '#1': 0"
 
 
+def kf_feature_rows_in_split_region(inputs):
+    """known-finding class: scenario C13_feature_rows_in_split_region fails, and every line it reports is a row whose strand and gene list are a
+    non-empty proper part of what the annotation has for that feature (the genes of one piece of a split region), never a wrong or a second row"""
+    import re
+    if not isinstance(inputs, dict) or inputs.get("scenario") != "C13_feature_rows_in_split_region" or not inputs.get("report"):
+        return False
+    for line in inputs["report"]:
+        m = re.match(r"(exon|intron) \d+-\d+: row has strand '([+-]+)' genes '([^']+)', annotation has strand '([+-]+)' genes '([^']+)'$", line.strip())
+        if not m:
+            return False
+        if not (set(m.group(2)) < set(m.group(4)) or set(m.group(2)) == set(m.group(4))) or not set(m.group(3).split(",")) < set(m.group(5).split(",")):
+            return False
+    return True
+
+
 def kf_read_across_cut_two_genes(inputs):
     """known-finding class: scenario C05_read_across_cut_two_genes fails, and everything it reports is ONE extra, identical corrected_reads.bed
     record of the one read (V_000) that lies across the cut between two pieces with different genes"""
